@@ -14,6 +14,56 @@ CHECKS = {
   "Every history of bounded depth over a layout-edge alphabet (adds, weighted adds, bins, merges from every store kind, copies, clears, reweightings, binary and protobuf round trips, reads), from every seed state, is executed on the real dense, sparse and buffered-paginated stores; each distinct concrete state is compared observer by observer with the mathematical index->weight map. Bounded-exhaustive: a coverage statement over all histories within the bound, not a sample.",
   "Trusted: the reference map (60 lines), the reflective state dump used only for pruning (a collision can prune, never alarm), dyadic weights. Not covered: histories deeper than the bound below each seed, indexes near +-2^31 for array-backed stores.",
   "DESIGN.md section 4 C04"),
+ "C01": ("model_checking",
+  "explicit-state BFS over add sequences on the real sketch x exhaustive quantile probes vs exact order statistics",
+  "All sequences of bounded length of Add(v) over a value alphabet derived from each mapping (bin edges and their float predecessors, range ends, sub-minimum magnitudes, zeros, duplicates) are executed on real sketches (3 mapping kinds x alphas x 3 store kinds); in every distinct state every quantile of Q(n) is compared with the exact order statistics at floor/ceil of q(n-1) within alpha plus a stated rounding allowance.",
+  "Trusted: the order-statistics oracle, the tolerance policy of DESIGN.md section 5. Not covered: inputs longer than the bound, values off the alphabet (bin membership at every edge is C03's job).",
+  "DESIGN.md section 4 C01"),
+ "C02": ("model_checking",
+  "explicit-state BFS over 3-sketch histories (add/merge/decode-merge/clear) vs single-sketch twin, frame clause on arguments",
+  "Every history of bounded depth over three real sketches of mixed store kinds sharing a mapping enumerates every partition of every small input and every merge order/tree; after each transition each sketch must be observation-identical to one sketch fed its whole input, and the argument of each merge must be observed unchanged.",
+  "Trusted: the canonical observation (all public observers). Not covered: more than three live sketches; inputs longer than the depth.",
+  "DESIGN.md section 4 C02"),
+ "C05": ("model_checking",
+  "explicit-state BFS over operation histories on the real collapsing stores vs folding reference, span and no-panic clauses",
+  "As C04 for the lowest- and highest-collapsing stores with bin limits 1..8 (quick) up to 2048 (thorough), partnered with every store kind and with collapsing stores of other limits, from seeds that include a partner wider than N merged into an empty or cleared receiver; every state equals the folding reference, spans at most N indexes, and no transition panics.",
+  "Trusted: the folding reference (fold keys beyond max-N+1 / min+N-1 into the edge). Not covered: histories deeper than the bound below each seed.",
+  "DESIGN.md section 4 C05"),
+ "C10": ("model_checking",
+  "explicit-state BFS over histories of two exact-statistics sketches vs the absorbed (value, weight) multiset",
+  "Every bounded history of Add / AddWithCount (incl. weight 0 and refused values) / MergeWith / Copy / Clear / Reweight / ChangeMapping with scale / encode-decode / DecodeAndMergeWith on real sketches with exact summary statistics; in every distinct state count, min, max are compared exactly, the sum against a 2000-bit reference within 16 ulps of the total of |value*weight|, emptiness, and every quantile against the plain answer clamped to [min,max].",
+  "Trusted: the multiset reference. Not covered: histories deeper than the bound; non-dyadic weights.",
+  "DESIGN.md section 4 C10"),
+ "C11": ("model_checking",
+  "explicit-state BFS over weighted add sequences (+ reweight) x cumulative-boundary quantiles vs absorbed values",
+  "All sequences of bounded length over 42 weighted additions (weights 2^-10..2^20), optionally followed by a down-scaling Reweight, on real sketches; every distinct state is queried at every cumulative boundary and its float neighbours; the answer must be within alpha of an absorbed value whose cumulative interval is within one unit of weight of the rank, inside [min,max], and from a non-empty side.",
+  "Trusted: the cumulative-interval oracle and tolerance policy. Not covered: longer inputs, non-dyadic weights.",
+  "DESIGN.md section 4 C11"),
+ "C12": ("model_checking",
+  "state invariant evaluated on every state of an explicit-state BFS over sketch histories (5 store kinds, both variants)",
+  "The coherence clauses (count, emptiness, extremes, monotone quantiles inside [min,max], batch = singles, approximate sum, iteration and early stop at every position) are evaluated on every distinct state reached by bounded histories of two-slot sketch worlds over all five store kinds and both sketch variants.",
+  "Trusted: the multiset reference and the folding reference for clamped extremes. Not covered: histories deeper than the bound.",
+  "DESIGN.md section 4 C12"),
+ "C13": ("model_checking",
+  "refused/accepted call menus executed in every state of an explicit-state BFS; constructor menus enumerated",
+  "In every distinct state of bounded histories (both variants; dense, sparse, paginated, collapsing stores) each refused call must return its documented error and leave the full observation unchanged, each accepted call must return nil; refused calls are also transitions, so hidden damage shows in their futures (bins compared with the reference); constructor menus are enumerated exhaustively.",
+  "Trusted: the canonical observation. NaN weights/factors/constructor parameters are outside the contract and not probed.",
+  "DESIGN.md section 4 C13"),
+ "C14": ("model_checking",
+  "frame clause over every transition of an explicit-state BFS (stores and sketches): untouched slots observed unchanged; copy = original",
+  "Bounded histories interleaving mutations with every read-only operation and with copies, on all five store kinds and both sketch variants; across every transition the observation of each slot the operation may not write must be identical before and after, and a fresh copy must be observed identical to its original.",
+  "Trusted: the canonical observation and the per-operation write sets. Not covered: histories deeper than the bound.",
+  "DESIGN.md section 4 C14"),
+ "C15": ("model_checking",
+  "differential BFS: main world vs twin world in which Clear = replace by new object; key includes both dumps",
+  "Every bounded history (stores of all five kinds; sketches of both variants) is run in a main world and in a twin world where Clear is replaced by constructing a new object; corresponding slots must be observed identical after every transition; stale memory behind len is part of the state key so states differing only in garbage are both extended.",
+  "Model-free. Not covered: histories deeper than the bound below each seed.",
+  "DESIGN.md section 4 C15"),
+ "C16": ("model_checking",
+  "differential transition oracle on every Reweight transition of an explicit-state BFS: content after = content before x w",
+  "Every state of depth below the bound of store worlds (all kinds) and sketch worlds (both variants) receives Reweight(w), w in {2^-10, 1/2, 1, 2, 3}; the content after must be exactly the content before with every weight scaled (stores: all observers; sketches: bins, zero weight, count, exact sum scaled, exact extremes unchanged).",
+  "Model-free (the expectation is the real content before the call, scaled). Not covered: non-dyadic weights or factors.",
+  "DESIGN.md section 4 C16"),
 }
 
 NOT_YET = "check not built yet in this round (work in progress; will be claimed once its machinery exists)"
